@@ -101,4 +101,26 @@ LEVELS["C11"] = {
     "note": _MUT_NOTE,
 }
 
+LEVELS["C12"] = {
+    "text": "Bounded symbolic model checking of the report views: for every selection of records on calendar-boundary dates and all (symbolic) totals, the rows of each aggregation "
+            "partition the records by calendar period, sum to the grand total (solver-proved sums), are chronological, filled gaps contribute nothing and klog today's split adds up; "
+            "the bucket rule for all dates comes from the C15 harnesses included in this check.",
+    "note": BASE_NOTE + " Composition is checked on boundary dates only; rendering is outside.",
+}
+LEVELS["C13"] = {
+    "text": "Bounded symbolic model checking of service.Filter and service.Sort: symbolic dates and durations, path-enumerated tag / entry-type combinations; the result must be exactly "
+            "the reference selection, unaltered and in input order; Sort must be an ordered permutation (real pdqsort code).",
+    "note": BASE_NOTE + " The flag-to-query translation of the relative shortcuts is not composed (see outside).",
+}
+LEVELS["C14"] = {
+    "text": "Bounded symbolic model checking of tag recognition: every ASCII summary up to the bound is scanned by klog (regexp model over the real syntax.Prog) and by an independent "
+            "scanner written from the specification - same (name, value) list; bare-name matching and per-tag totals are proven for symbolic durations.",
+    "note": BASE_NOTE,
+}
+LEVELS["C18"] = {
+    "text": "Bounded symbolic model checking of styling: each evaluation command runs twice in one path (theme vs no_colour) on a file with symbolic summary bytes; stripping SGR "
+            "sequences must give identical text and table rows must have equal visible width.",
+    "note": BASE_NOTE + " One file template; commands driven at Run(ctx) level.",
+}
+
 NOT_APPLICABLE = {}
